@@ -51,7 +51,8 @@ def leaf_repr(x):
     if isinstance(x, types.ModuleType):
         return ["module", x.__name__]
     if isinstance(x, types.MethodType):
-        return ["method", getattr(x.__func__, "__name__", "?"), id(x.__self__)]
+        return ["method", getattr(x.__func__, "__name__", "?"), type(x.__self__).__name__,
+                str(getattr(x.__self__, "tag", ""))]  # (no id(): digests must not depend on addresses)
     if isinstance(x, (types.FunctionType, types.BuiltinFunctionType)):
         return ["function", getattr(x, "__qualname__", "?")]
     return ["opaque", type(x).__name__, strip_addr(repr(x))]
